@@ -50,6 +50,10 @@ var denomPool = []string{"uusdc", "UUSDC", "uUsDC", "uuſdc", "other", "", "ab",
 var mintDenom = "uusdc"
 
 func hx(b []byte) string { return hex.EncodeToString(b) }
+func unhexOr(s string) []byte {
+	b, _ := hex.DecodeString(s)
+	return b
+}
 func hs(s string) string { return hex.EncodeToString([]byte(s)) }
 
 func NewGen(seed int64, ops, obs *bufio.Writer) *Gen {
@@ -332,6 +336,11 @@ func (g *Gen) remoteTokenSpelling() string {
 	b := g.randBytes(n)
 	if n == 32 && g.chance(0.5) {
 		b = token(g.pick(3))
+	} else if n > 32 && g.chance(0.6) {
+		// over-long, but ENDING in a registered token: a decoder that crops from the left would find that pair
+		copy(b[n-32:], token(g.pick(3)))
+	} else if n == 20 && g.chance(0.3) {
+		copy(b, token(g.pick(3))[12:]) // the low 20 bytes of a registered token
 	}
 	s := hx(b)
 	switch g.pick(8) {
@@ -604,9 +613,22 @@ func (g *Gen) standardGenesis(nAtt int, t int) genSpec {
 	}
 	for _, d := range []uint32{0, 1, 3} {
 		s.messengers = append(s.messengers, fmt.Sprintf("%d:%x", d, messengerAddr(d)))
-		s.pairs = append(s.pairs, fmt.Sprintf("%d:%x:%s", d, token(0), hs(mintDenom)))
+		s.pairs = append(s.pairs, fmt.Sprintf("%d:%x:%s", d, token(0), hs(g.localTokenSpelling())))
 	}
 	return s
+}
+
+// localTokenSpelling: the local token of a genesis token pair -- usually the minting denom as is, sometimes in another
+// letter case (genesis stores it verbatim; only LinkTokenPair lower-cases), so that "the denom that is minted" and
+// "the denom that is stored" differ.
+func (g *Gen) localTokenSpelling() string {
+	if g.chance(0.2) {
+		return strings.ToUpper(mintDenom)
+	}
+	if g.chance(0.1) && len(mintDenom) > 1 {
+		return strings.ToUpper(mintDenom[:1]) + mintDenom[1:]
+	}
+	return mintDenom
 }
 
 func (g *Gen) initStandard(nAtt, t int) {
